@@ -140,6 +140,21 @@ def check(ctx, parts=('cursor', 'store', 'index', 'guards', 'atomic', 'tobytes',
             ctx.violation('R8-sorted-index', ins, m.text(), 'the value inserted in the begins list is not the position', m.lineno, clause='3')
         elif lin(idx) == {I: 1}:
             ctx.holds('R8-sorted-index', ins, m.text(), 'insertion index == bisect_right(begins, position)', m.lineno, clause='3')
+        elif canon(idx) == 'bisect_left(%s, %s)' % (BG, POS):
+            # slot = bisect_left: the successor begins[slot] may begin exactly at position (an empty
+            # chunk stored there by the field before: Em, an empty Data).  A successor test that
+            # does not look at the length of that chunk rejects the next in-order append
+            J = canon(idx)
+            succ = '%s[%s]' % (BG, J)
+            blind = False
+            for bp in bad_paths:
+                gts = bp.guard_texts()
+                if any(succ in g and L in g for g in gts) and not any('len(%s[%s])' % (CM, succ) in g for g in gts):
+                    blind = True
+            if blind:
+                ctx.violation('R8-sorted-index', ins, m.text(), 'the slot is bisect_left(begins, position), so the successor %s may be an empty chunk that begins exactly at position; the successor test does not look at its length and rejects a chunk appended right after an empty one (false collision)' % succ, m.lineno, clause='3', witness=True)
+            else:
+                ctx.undecided('R8-sorted-index', ins, m.text(), 'slot computed with bisect_left: the neighbour tests are not analysed for this form', m.lineno, clause='3')
         else:
             ctx.violation('R8-sorted-index', ins, m.text(), 'insertion index %s is not bisect_right(begins, position): the begins list loses its order' % canon(idx), m.lineno, clause='3')
 
@@ -341,6 +356,21 @@ def check_buffer_per_pack(ctx):
         ctx.undecided(rule, fi, 'Packet.pack', 'no pack_impl call found', fi.node.lineno, clause='1')
 
 
+def _index_may_repeat(repo, fr, CM):
+    """insert() never tests whether the position is already a key of the chunk map (an empty chunk
+    passes both overlap tests), and always adds the position to the index"""
+    ins = fr.methods.get('insert')
+    if ins is None:
+        return False
+    for n in ast.walk(ins.node):
+        if isinstance(n, ast.Compare) and any(isinstance(o, (ast.In, ast.NotIn)) for o in n.ops) and any(canon(c) in (CM, BEG) for c in n.comparators):
+            return False
+        if isinstance(n, ast.Call) and isinstance(n.func, ast.Attribute) and n.func.attr in ('get', '__contains__', 'setdefault') and canon(n.func.value) == CM:
+            return False
+    return any(isinstance(n, ast.Call) and isinstance(n.func, ast.Attribute) and n.func.attr in ('insert', 'append') and canon(n.func.value) == BEG for n in ast.walk(ins.node)) or \
+        any(isinstance(n, ast.Call) and call_name(n) == 'insort' and n.args and canon(n.args[0]) == BEG for n in ast.walk(ins.node))
+
+
 def check_tobytes(ctx, repo, fr, tob, CM):
     """the rendering emits, for the chunks in position order, fill * (offset - end of the previous
     chunk) and then the chunk, starting at 0, and joins the emitted parts in that order.  The parts
@@ -397,6 +427,9 @@ def check_tobytes(ctx, repo, fr, tob, CM):
         K, V = item, '%s[%s]' % (CM, item)
     elif it in ('%s.items()' % CM, CM, '%s.keys()' % CM, '%s.values()' % CM) or it.startswith(('reversed(sorted(%s' % CM, 'sorted(%s.items(), reverse' % CM, 'sorted(%s, reverse' % CM)):
         ctx.violation(rule, producer, 'for ... in %s' % it, 'chunks are not walked in position order (sorted items / keys of the chunk map)', lp.lineno, clause='5', witness=True)
+        return
+    elif it == BEG and _index_may_repeat(repo, fr, CM):
+        ctx.violation(rule, producer, 'for ... in %s' % it, 'the sorted index is not the key set of the chunk map: insert() accepts a second chunk at the position of an empty one, which replaces the map entry and adds the position to the index again -- the chunk is emitted twice', lp.lineno, clause='5', witness=True)
         return
     else:
         ctx.undecided(rule, producer, 'for ... in %s' % it, 'cannot see that the chunks are walked in position order (not sorted items / keys of the chunk map)', lp.lineno, clause='5')
